@@ -3,6 +3,8 @@ package timed
 import (
 	"encoding/json"
 	"fmt"
+	mapset "github.com/deckarep/golang-set/v2"
+	"github.com/karagenc/socket.io-go/adapter"
 	"io"
 	"net/http"
 	"strings"
@@ -19,16 +21,18 @@ func TestLifecycle(t *testing.T) {
 	component(t, func(h *H) {
 		lifecycleCauses(t, h)
 		lifecycleCuts(t, h)
+		lifecycleTwoNamespaces(t, h)
 	})
 }
 
 type sockObs struct {
-	id            sio.SocketID
-	disconnecting []string
-	disconnect    []string
-	order         []string
+	id             sio.SocketID
+	disconnecting  []string
+	disconnect     []string
+	order          []string
 	registeredLate bool
 	connHandler    bool
+	regAt          time.Duration // virtual time at which the connection handler had finished its registrations
 }
 
 type lifeWorld struct {
@@ -56,10 +60,10 @@ func (r *rig) probeSid(sid string) int {
 }
 
 var allowedReasons = map[string][]sio.Reason{
-	"clientClose":      {sio.ReasonTransportClose, sio.ReasonTransportError},
-	"tcpCut":           {sio.ReasonTransportClose, sio.ReasonTransportError, sio.ReasonPingTimeout},
-	"blackhole":        {sio.ReasonPingTimeout, sio.ReasonTransportClose, sio.ReasonTransportError},
-	"serverDisconnect": {sio.ReasonServerNamespaceDisconnect},
+	"clientClose":           {sio.ReasonTransportClose, sio.ReasonTransportError},
+	"tcpCut":                {sio.ReasonTransportClose, sio.ReasonTransportError, sio.ReasonPingTimeout},
+	"blackhole":             {sio.ReasonPingTimeout, sio.ReasonTransportClose, sio.ReasonTransportError},
+	"serverDisconnect":      {sio.ReasonServerNamespaceDisconnect},
 	"serverDisconnectClose": {sio.ReasonForcedServerClose, sio.ReasonForcedClose, sio.ReasonServerNamespaceDisconnect},
 	// a client that disconnects its only namespace closes the connection too: the close may overtake the DISCONNECT packet
 	"clientDisconnect": {sio.ReasonClientNamespaceDisconnect, sio.ReasonTransportClose, sio.ReasonTransportError},
@@ -125,6 +129,7 @@ func lifecycleCauses(t *testing.T, h *H) {
 		sidCode := -9
 		connHandlerRan := false
 		_ = connHandlerRan
+		causeAt := time.Duration(-1) // virtual time at which the (first) cause struck
 		mwEntered := false
 		I, T := 2*time.Second, 2*time.Second
 		synctest.Test(t, func(t *testing.T) {
@@ -146,6 +151,7 @@ func lifecycleCauses(t *testing.T, h *H) {
 				return nil
 			})
 			var srvSock sio.ServerSocket
+			bubbleStart := time.Now()
 			r.server.OnConnection(func(s sio.ServerSocket) {
 				w.mu.Lock()
 				connHandlerRan = true
@@ -179,6 +185,9 @@ func lifecycleCauses(t *testing.T, h *H) {
 				if !s.Connected() {
 					o.registeredLate = true // the close overtook (part of) the registrations above
 				}
+				w.mu.Lock()
+				o.regAt = time.Since(bubbleStart)
+				w.mu.Unlock()
 			})
 			m := r.manager(sc.trs, &sio.ManagerConfig{NoReconnection: true})
 			m.OnOpen(func() {})
@@ -212,6 +221,11 @@ func lifecycleCauses(t *testing.T, h *H) {
 			}
 			// the Engine.IO session id, from the server's point of view
 			strike := func(cause string) {
+				w.mu.Lock()
+				if causeAt < 0 {
+					causeAt = time.Since(bubbleStart)
+				}
+				w.mu.Unlock()
 				switch cause {
 				case "clientClose":
 					go m.Close()
@@ -305,7 +319,10 @@ func lifecycleCauses(t *testing.T, h *H) {
 			if !had {
 				continue
 			}
-			if o.registeredLate && len(o.disconnect) <= 1 && len(o.disconnecting) <= 1 && len(o.disconnect)+len(o.disconnecting) < 2 {
+			// a connection handler that finished its registrations at or after the virtual instant at which the cause struck ran
+			// concurrently with the close: whether the handlers it registered still run is the recorded finding D35
+			concurrent := causeAt >= 0 && o.regAt >= causeAt
+			if (o.registeredLate || concurrent) && len(o.disconnect) <= 1 && len(o.disconnecting) <= 1 && len(o.disconnect)+len(o.disconnecting) < 2 {
 				h.Violation("C06", "a socket is handed to the connection handler after it was disconnected; handlers registered there never run", "the connection ends while a namespace middleware runs", desc+fmt.Sprintf(": socket %s", id))
 				continue
 			}
@@ -372,6 +389,8 @@ func lifecycleCuts(t *testing.T, h *H) {
 			progress("lifecycleCuts %v k=%d", trs, k)
 			var mu sync.Mutex
 			connected, disconnects, late, overtaken := 0, 0, 0, 0
+			var regTimes []time.Time
+			var cutTime time.Time
 			var reasons []string
 			listedAfter, roomsAfter := 0, 0
 			synctest.Test(t, func(t *testing.T) {
@@ -389,13 +408,17 @@ func lifecycleCuts(t *testing.T, h *H) {
 					s.Join("room")
 					s.OnEvent("m", func(string, func(string)) {})
 					wasConnected := s.Connected()
-					s.OnDisconnect(func(reason sio.Reason) { mu.Lock(); disconnects++; reasons = append(reasons, string(reason)); mu.Unlock() })
-					if wasConnected && !s.Connected() {
-						// the close overtook the registration above: whether the handler still runs is undecided here
+					s.OnDisconnect(func(reason sio.Reason) {
 						mu.Lock()
-						overtaken++
+						disconnects++
+						reasons = append(reasons, string(reason))
 						mu.Unlock()
-					}
+					})
+					regAt := time.Now()
+					mu.Lock()
+					regTimes = append(regTimes, regAt)
+					mu.Unlock()
+					_ = wasConnected
 				})
 				// every connection the client opens is cut after k bytes in total (counted per connection)
 				r.net.mu.Lock()
@@ -410,6 +433,7 @@ func lifecycleCuts(t *testing.T, h *H) {
 				})
 				c.Connect()
 				time.Sleep(20 * time.Second)
+				cutTime = r.net.firstCut()
 				listedAfter = len(r.server.Sockets())
 				for _, id := range ids {
 					if rs, ok := r.server.Of("/").Adapter().SocketRooms(id); ok && rs.Cardinality() > 0 {
@@ -434,6 +458,13 @@ func lifecycleCuts(t *testing.T, h *H) {
 			if late > 0 {
 				h.Violation("C06", "a socket is handed to the connection handler after it was disconnected; handlers registered there never run", "the connection ends while a namespace middleware runs", desc)
 			}
+			// a connection handler that finished its registrations at or after the virtual instant of the (first) cut ran concurrently
+			// with the close (finding D35)
+			for _, rt := range regTimes {
+				if !cutTime.IsZero() && !rt.Before(cutTime) {
+					overtaken++
+				}
+			}
 			if disconnects > connected || disconnects < connected-overtaken {
 				h.Violation("C06", "the disconnect handlers of a socket that had connected do not run exactly once", desc, fmt.Sprintf("%d sockets connected, %d disconnects %v", connected, disconnects, reasons))
 			} else if disconnects < connected {
@@ -441,6 +472,89 @@ func lifecycleCuts(t *testing.T, h *H) {
 			}
 			if listedAfter != 0 || roomsAfter != 0 {
 				h.Violation("C06", "a socket whose connection ended is still listed in its namespace or in a room", desc, fmt.Sprintf("listed=%d with rooms=%d", listedAfter, roomsAfter))
+			}
+		}
+	}
+}
+
+// one connection, two namespaces: the socket of "/" is connected and has a disconnecting handler that takes 800 ms; the CONNECT
+// for "/b" is still inside its middleware when the connection ends (by each cause); the middleware returns while the socket of
+// "/" is still closing. Whatever is admitted for "/b" afterwards must be closed again: handlers exactly once if it ever was
+// handed to the connection handler, and nothing left in the namespace or the adapter.
+func lifecycleTwoNamespaces(t *testing.T, h *H) {
+	for _, cause := range []string{"cut", "serverClose", "clientClose"} {
+		for _, releaseAfter := range []time.Duration{100 * time.Millisecond, 400 * time.Millisecond, 1200 * time.Millisecond} {
+			var mu sync.Mutex
+			bConn, bDisc, bDiscing, bLate := 0, 0, 0, 0
+			var causeAt time.Time
+			aDisc := 0
+			leftB, roomsB := -1, -1
+			synctest.Test(t, func(t *testing.T) {
+				r := newRig(nil)
+				release := make(chan struct{})
+				r.server.Of("/").OnConnection(func(s sio.ServerSocket) {
+					s.OnDisconnecting(func(sio.Reason) { time.Sleep(800 * time.Millisecond) })
+					s.OnDisconnect(func(sio.Reason) { mu.Lock(); aDisc++; mu.Unlock() })
+				})
+				nb := r.server.Of("/b")
+				nb.Use(func(s sio.ServerSocket, hs *sio.Handshake) any { <-release; return nil })
+				nb.OnConnection(func(s sio.ServerSocket) {
+					s.OnDisconnecting(func(sio.Reason) { mu.Lock(); bDiscing++; mu.Unlock() })
+					s.OnDisconnect(func(sio.Reason) { mu.Lock(); bDisc++; mu.Unlock() })
+					mu.Lock()
+					if causeAt.IsZero() || time.Now().Before(causeAt) {
+						bConn++
+					} else {
+						// handed over after it was already disconnected, or disconnected before the registrations were in place:
+						// handlers registered in a connection handler that is overtaken by the close never run (finding D35)
+						bLate++
+					}
+					mu.Unlock()
+				})
+				p, err := r.rawPeer([]string{"websocket"})
+				if err != nil {
+					t.Fatal(err)
+				}
+				p.sendText("0")
+				time.Sleep(300 * time.Millisecond)
+				p.sendText("0/b,")
+				time.Sleep(300 * time.Millisecond) // the middleware of /b is waiting
+				mu.Lock()
+				causeAt = time.Now()
+				mu.Unlock()
+				switch cause {
+				case "cut":
+					r.net.cutAll()
+				case "serverClose":
+					for _, s := range r.server.Of("/").Sockets() {
+						go s.Disconnect(true)
+					}
+				case "clientClose":
+					go p.sock.Close()
+				}
+				time.Sleep(releaseAfter)
+				close(release)
+				time.Sleep(5 * time.Second)
+				leftB = len(nb.Sockets())
+				roomsB = nb.Adapter().Sockets(mapset.NewSet[adapter.Room]()).Cardinality()
+				r.close()
+				time.Sleep(10 * time.Minute)
+			})
+			desc := fmt.Sprintf("two namespaces on one connection: the connection ends (%s) while the CONNECT for /b is in its middleware and the socket of / has a slow disconnecting handler; the middleware returns %v later", cause, releaseAfter)
+			h.Eval()
+			h.NonTrivial(desc)
+			h.Dist("life.twoNamespaces." + cause)
+			if aDisc != 1 {
+				h.Violation("C06", "the disconnect handlers of a socket that had connected do not run exactly once", desc, fmt.Sprintf("socket of /: disconnect ran %d times", aDisc))
+			}
+			if bConn > 0 && bLate == 0 && (bDisc != bConn || bDiscing != bConn) {
+				h.Violation("C06", "the disconnect handlers of a socket that had connected do not run exactly once", desc, fmt.Sprintf("socket of /b: handed to the connection handler %d times, disconnecting ran %d, disconnect ran %d times", bConn, bDiscing, bDisc))
+			}
+			if bLate > 0 {
+				h.Violation("C06", "a socket is handed to the connection handler after it was disconnected; handlers registered there never run", "the connection ends while a namespace middleware runs", desc)
+			}
+			if leftB != 0 || roomsB != 0 {
+				h.Violation("C06", "a closed connection leaves a socket behind on the server", desc, fmt.Sprintf("Of(/b).Sockets()=%d, sockets known to its adapter=%d", leftB, roomsB))
 			}
 		}
 	}
